@@ -751,6 +751,69 @@ func c17exoticFirst(t vf.Tier, seed uint64) any {
 	return nil
 }
 
+// ---- stream first-use-concurrent ------------------------------------------
+// The very first uses of Format / String / AmountUnit.String in a fresh
+// process, issued by many goroutines at the same instant (Init runs once per
+// child process, before anything else touched the package): lazily built
+// tables and caches are initialised under contention exactly once per
+// process, which no warmed-up workload can reach.  The texts are judged
+// afterwards by the same reference as everywhere else.
+
+type c17firstUse struct {
+	a int64
+	u int
+	s string
+	l string // AmountUnit.String()
+}
+
+func c17firstUseInit(t vf.Tier, seed uint64) any {
+	const G = 16
+	r := vf.NewRand(vf.Mix(seed, 0xf1257))
+	amts := []int64{0, 1, -1, 123456789, 2099999997690000, -2099999997690000, int64(r.Uint64n(1 << 50))}
+	out := make([][]c17firstUse, G)
+	var wg sync.WaitGroup
+	start := make(chan struct{})
+	for g := 0; g < G; g++ {
+		wg.Add(1)
+		go func(g int) {
+			defer wg.Done()
+			defer func() { recover() }() // a panic belongs to C08; the texts collected so far are still judged
+			<-start
+			for k := 0; k < c17nUnits; k++ {
+				u := c17minU + (k+g*5)%c17nUnits
+				a := amts[(g+k)%len(amts)]
+				s := bchutil.Amount(a).Format(bchutil.AmountUnit(u))
+				l := bchutil.AmountUnit(u).String()
+				out[g] = append(out[g], c17firstUse{a, u, s, l})
+			}
+		}(g)
+	}
+	close(start)
+	wg.Wait()
+	var all []c17firstUse
+	for _, o := range out {
+		all = append(all, o...)
+	}
+	return all
+}
+
+func c17firstUseCase(c *vf.Ctx, i int) {
+	all, _ := c.Shared.([]c17firstUse)
+	if len(all) == 0 {
+		c.Inconclusive("first-use-results-missing")
+		return
+	}
+	for _, e := range all {
+		c.Evals(1)
+		c17checkText(c, "Format-first-use", e.a, e.u, e.s, c17quot(e.a, e.u))
+		if want := c17label(e.u); e.l != want {
+			c.Failf("AmountUnit.String/first-use", "AmountUnit(%d).String()=%q during concurrent first use, want %q", e.u, e.l, want)
+		}
+	}
+	c.Count("first_use_texts_judged", int64(len(all)))
+	c.Nontrivial(vf.Mix(0xf17, uint64(i), c.Seed))
+}
+
 func c17amountsCase(c *vf.Ctx, i int) {
 	tab := c17amountTab()
 	var t c17amtTally
@@ -960,7 +1023,13 @@ func init() {
 			{Name: "amounts", N: func(t vf.Tier) int { return len(c17amountTab()) + t.Sz(500_000, 10_000_000) }, Run: c17amountsCase},
 			// the same checks in a fresh process whose FIRST library calls use exotic units
 			{Name: "amounts-after-exotic-units-first", Init: c17exoticFirst, N: func(t vf.Tier) int { return len(c17amountTab()) + t.Sz(20_000, 400_000) }, Run: c17amountsCase},
+			{Name: "first-use-concurrent-race", Race: true, Workers: 1, Shards: 8, Init: c17firstUseInit, N: func(t vf.Tier) int { return t.Sz(8, 8) }, Run: c17firstUseCase},
 			{Name: "mulf64", N: func(t vf.Tier) int { return t.Sz(125_000, 12_500_000) }, Run: c17mulCase},
+			// the same monitors in the GOARCH=386 build of the driver and the library (int is 32 bits wide there)
+			{Name: "newamount-directed-386", Arch386: true, N: func(vf.Tier) int { return len(c17directedF()) + len(c17nonFinite) }, Run: c17directedCase},
+			{Name: "newamount-random-386", Arch386: true, N: func(t vf.Tier) int { return t.Sz(40_000, 1_000_000) }, Run: c17randomCase},
+			{Name: "amounts-386", Arch386: true, N: func(t vf.Tier) int { return len(c17amountTab()) + t.Sz(100_000, 2_000_000) }, Run: c17amountsCase},
+			{Name: "mulf64-386", Arch386: true, N: func(t vf.Tier) int { return t.Sz(40_000, 1_000_000) }, Run: c17mulCase},
 		},
 	})
 }
